@@ -481,10 +481,11 @@ class SpecMixin:
                 return self.sv(f.body, sub)
             if fn in C.UNINTERPRETED:
                 ar, kind = C.UNINTERPRETED[fn]
-                rng = {"val": Val, "bool": z3.BoolSort(), "int": IntS}[kind]
+                # "str": a val-valued function whose results are statically known to be strings (len / subscripts read them as text)
+                rng = {"val": Val, "str": Val, "bool": z3.BoolSort(), "int": IntS}[kind]
                 f = self.get_uf("spec_" + fn, [Val] * ar, rng)
                 r = f(*[self.sv(x, ctx).t for x in a])
-                return {"val": lambda: SV(r), "bool": lambda: sv_bool(r), "int": lambda: sv_int(r)}[kind]()
+                return {"val": lambda: SV(r), "str": lambda: SV(r, "str"), "bool": lambda: sv_bool(r), "int": lambda: sv_int(r)}[kind]()
             b = self.s_call_bool(e, ctx)
             if b is not None:
                 return sv_bool(b)
@@ -503,6 +504,10 @@ class SpecMixin:
                 f = self.get_uf("str_replace", [smt.StrS, smt.StrS, smt.StrS], smt.StrS)
                 a0, a1 = self.sv(e.args[0], ctx), self.sv(e.args[1], ctx)
                 return SV(smt.mk_str(f(Val.s(base.t), Val.s(a0.t), Val.s(a1.t))), "str")
+            if m in ("startswith", "endswith") and len(e.args) == 1 and base.ty == "str":
+                a0 = self.sv(e.args[0], ctx)
+                fn = z3.PrefixOf if m == "startswith" else z3.SuffixOf
+                return sv_bool(fn(Val.s(a0.t), Val.s(base.t)))
             if m == "translate" and len(e.args) == 1:
                 f = self.get_uf("str_translate", [smt.StrS, Val], smt.StrS)
                 return SV(smt.mk_str(f(Val.s(base.t), self.sv(e.args[0], ctx).t)), "str")
